@@ -374,6 +374,80 @@ def t_line_statement(E, first, step1, shape):
     E.prove(And(g._last_point[0] == p1[0], g._last_point[1] == p1[1]), 'the graphics cursor ends at the second endpoint')
 
 
+# ---------------------------------------------------------------------------
+# GET / PUT: the sprite builders (real ByteMatrix operations on symbolic pixel values)
+
+def _matrix(E, h, w, maxval, tag='px'):
+    from pcbasic.basic.base import bytematrix
+    cells = [[E.int('%s[%d,%d]' % (tag, y, x), 0, maxval) for x in range(w)] for y in range(h)]
+    rows = [SBuf(list(r), 'bytearray') if E.mode == 'symbolic' else bytearray(r) for r in cells]
+    return bytematrix.ByteMatrix._create_from_rows(rows), cells
+
+
+def t_sprite_roundtrip(E, builder, param, w, h):
+    """unpack(pack(sprite)) = sprite for every pixel content (GET stores pack(...) in the array, PUT draws
+    unpack(...) of it): with PSET at the same place the screen is unchanged. Also the size record."""
+    from pcbasic.basic.display import framebuffer as fb
+    cls = {'packed': fb.PackedSpriteBuilder, 'planed': fb.PlanedSpriteBuilder, 'tandy6': fb.Tandy6SpriteBuilder}[builder]
+    b = E.new(cls, param)
+    nbits = param        # bits per pixel (packed) / number of planes
+    sprite, cells = _matrix(E, h, w, (1 << nbits) - 1)
+    r = E.call(b.pack, sprite)
+    E.prove(not r.raised, 'pack never raises')
+    if r.raised:
+        return
+    data = r.value
+    dc = list(to_cells(data))
+    if builder == 'packed':
+        row_bytes = (w * nbits + 7) // 8
+        E.prove(len(dc) == 4 + row_bytes * h, 'size record and byte-aligned rows')
+        E.prove(And(dc[0] + 256 * dc[1] == w * nbits, dc[2] + 256 * dc[3] == h), 'size record: row bits, height')
+    else:
+        row_bytes = (w + 7) // 8
+        E.prove(len(dc) == 4 + row_bytes * h * nbits, 'size record and one byte-aligned row per plane and scan line')
+        rec_w = w // 2 if builder == 'tandy6' else w
+        E.prove(And(dc[0] + 256 * dc[1] == rec_w, dc[2] + 256 * dc[3] == h), 'size record: width (half the width in Tandy SCREEN 6), height')
+    r2 = E.call(b.unpack, data)
+    E.prove(not r2.raised, 'unpack never raises')
+    if r2.raised:
+        return
+    back = r2.value
+    E.prove(back.width == w and back.height == h, 'the sprite comes back with its size')
+    if back.width == w and back.height == h:
+        for y in range(h):
+            got = list(to_cells(back._rows[y]))
+            E.prove(len(got) == w and bool(And(*[g == c for g, c in zip(got, cells[y])])), 'every pixel of scan line %d comes back' % y)
+
+
+def t_put_operations(E, op):
+    """PUT's pixel operations on ByteMatrix rows: XOR applied twice restores the original pixels; PSET replaces
+    them (operator checks on the real elementwise code, symbolic pixels)."""
+    import operator
+    old, oc = _matrix(E, 2, 3, 15, 'old')
+    spr, sc = _matrix(E, 2, 3, 15, 'spr')
+    f = {'xor': operator.ixor, 'or': operator.ior, 'and': operator.iand}[op]
+    r = E.call(f, old, spr)
+    E.prove(not r.raised, 'never raises')
+    if r.raised:
+        return
+    once = r.value
+    want1 = {'xor': lambda a, b: a + b - 2 * _band(a, b), 'or': lambda a, b: a + b - _band(a, b), 'and': _band}[op]
+    for y in range(2):
+        got = list(to_cells(once._rows[y]))
+        E.prove(And(*[g == want1(a, b) for g, a, b in zip(got, oc[y], sc[y])]), 'elementwise %s of screen and sprite pixels' % op)
+    if op == 'xor':
+        r = E.call(f, once, spr)
+        twice = r.value
+        for y in range(2):
+            got = list(to_cells(twice._rows[y]))
+            E.prove(And(*[g == a for g, a in zip(got, oc[y])]), 'XOR applied twice restores the original pixels')
+
+
+def _band(a, b):
+    """Bitwise and of two 4-bit values, arithmetically."""
+    return sum((((a // (1 << k)) % 2) * ((b // (1 << k)) % 2)) * (1 << k) for k in range(4))
+
+
 TASKS = [
     Task('Graphics._draw_line (loop invariant)', t_draw_line, covers=('iteration', 'exit'), timeout_ms=60000),
     Task('Graphics._draw_line (bounded cross-check)', t_draw_line_native, bounded=True, samples=(300, 5000),
@@ -385,6 +459,14 @@ TASKS = [
     Task('PSET / POINT', t_pset_point),
     Task('GraphicsViewPort (no VIEW): stores and loads are exact', t_viewport_unclipped,
          cases=[{'how': h, 'form': f} for h in ('init', 'unset') for f in ('point', 'row', 'column', 'rectangle')]),
+    Task('sprite builders: unpack(pack(sprite)) = sprite', t_sprite_roundtrip,
+         cases=[{'builder': 'packed', 'param': bpp, 'w': w, 'h': h} for bpp in (1, 2, 4) for w, h in ((1, 1), (3, 2), (8, 1), (9, 2))]),
+    Task('planed sprite builders: unpack(pack(sprite)) = sprite (bounded)', t_sprite_roundtrip, bounded=True, samples=(40, 400),
+         cases=[{'builder': 'planed', 'param': n, 'w': w, 'h': h} for n in (2, 4) for w, h in ((1, 1), (3, 2), (8, 1), (9, 2), (17, 3))] +
+               [{'builder': 'tandy6', 'param': 2, 'w': w, 'h': h} for w, h in ((2, 1), (4, 2), (8, 1), (10, 2), (18, 3))],
+         scope='40 (quick) / 400 (thorough) random pixel contents per builder and sprite size (the bitwise or of two symbolic planes is outside the proof engine)'),
+    Task('PUT pixel operations: XOR twice restores (bounded)', t_put_operations, cases=[{'op': o} for o in ('xor', 'or', 'and')], bounded=True, samples=(200, 2000),
+         scope='200 (quick) / 2000 (thorough) random 2x3 screen and sprite contents per operation, real ByteMatrix in-place operators'),
     Task('Graphics.line_ (endpoints)', t_line_statement,
          cases=[{'first': f, 'step1': s, 'shape': sh} for f in ('given', 'step', 'omitted') for s in (False, True) for sh in (None, b'B', b'BF')]),
 ]
@@ -395,7 +477,7 @@ ASSUMPTIONS = [
     'numeric argument evaluation (to_single / to_value) of PSET and POINT is taken by contract',
 ]
 NOT_COVERED = [
-    'GET / PUT round trips and the sprite builders (PackedSpriteBuilder, PlanedSpriteBuilder, Tandy6SpriteBuilder): not under contract',
+    'GET / PUT statements themselves (get_ / put_: array bounds, clipping): not under contract; the packed (CGA) sprite builder round trip is proved, '
+    'the planed (EGA) and Tandy SCREEN 6 builders and the XOR/OR/AND pixel operations only sampled natively (bounded tasks)',
     'clipping against VIEW and the screen edge (C30), WINDOW scaling, styled lines pixel selection',
-    'PUT with XOR twice restores the screen',
 ]
